@@ -308,8 +308,12 @@ def r17c(R):
             'the loader modifies the program list it is given: the next run of '
             'the same job loads a different program')
     run = A.func(MACHINE, 'Machine.run')
-    ok = any(isinstance(n, ast.Assign) and norm(n.targets[0]) == 'loader'
-             and norm(n.value) == 'Loader()' for n in walk_own(run.node))
+    lv = [norm(n.targets[0]) for n in walk_own(run.node)
+          if isinstance(n, ast.Assign) and norm(n.value) == 'Loader()'
+          and isinstance(n.targets[0], ast.Name)]
+    ok = len(lv) == 1 and any(
+        isinstance(c.func, ast.Attribute) and c.func.attr == 'load'
+        and norm(c.func.value) == lv[0] for c in A.calls_in(run))
     R.check(run, 'a fresh Loader per run', ok,
             'Machine.run reuses a loader: segments of the previous program '
             'leak into the image')
